@@ -64,6 +64,188 @@ type gateWalker struct {
 	rows    []gateRow
 	callees map[string]bool // nil: privacyCallees
 	returns string          // non-empty: record return statements as rows of this site
+	defs    map[string]*localDef
+	effects []token.Pos // positions of statements with side effects
+}
+
+// ---- canonical text of conditions and recorded arguments -------------------------------
+// A local identifier defined exactly once in the function, never reassigned, by a
+// side-effect-free expression, with no effectful statement between the definition and the
+// use, is replaced by its defining expression (recursively, depth-limited).  Anything else
+// keeps its text (fail closed).  `!(!x)` is written `x`.
+
+type localDef struct {
+	n    int      // number of definitions / assignments
+	expr ast.Expr // the defining expression if n == 1 and single-valued
+	pos  token.Pos
+}
+
+var pureCallees = map[string]bool{
+	"len": true, "cap": true, "uint16": true, "uint32": true, "uint64": true, "int": true, "int64": true,
+	"float64": true, "hasWebseeds": true, "hasProxy": true, "t.hasProxy": true, "t.InfoComplete": true,
+}
+
+func pureExpr(e ast.Expr) bool {
+	pure := true
+	ast.Inspect(e, func(n ast.Node) bool {
+		switch n := n.(type) {
+		case *ast.CallExpr:
+			if !pureCallees[src(n.Fun)] {
+				pure = false
+			}
+		case *ast.FuncLit, *ast.CompositeLit:
+			pure = false
+		case *ast.UnaryExpr:
+			if n.Op == token.ARROW || n.Op == token.AND {
+				pure = false
+			}
+		}
+		return pure
+	})
+	return pure
+}
+
+func collectDefs(body *ast.BlockStmt) (map[string]*localDef, []token.Pos) {
+	defs := map[string]*localDef{}
+	var effects []token.Pos
+	get := func(name string) *localDef {
+		d := defs[name]
+		if d == nil {
+			d = &localDef{}
+			defs[name] = d
+		}
+		return d
+	}
+	ast.Inspect(body, func(n ast.Node) bool {
+		switch n := n.(type) {
+		case *ast.AssignStmt:
+			declOnly := n.Tok == token.DEFINE
+			for i, l := range n.Lhs {
+				id, ok := l.(*ast.Ident)
+				if !ok {
+					declOnly = false
+					continue
+				}
+				d := get(id.Name)
+				d.n++
+				d.pos = n.End()
+				if len(n.Lhs) == len(n.Rhs) && n.Tok == token.DEFINE {
+					d.expr = n.Rhs[i]
+				} else {
+					d.expr = nil
+				}
+			}
+			for _, r := range n.Rhs {
+				if !pureExpr(r) {
+					declOnly = false
+				}
+			}
+			if !declOnly {
+				effects = append(effects, n.Pos())
+			}
+		case *ast.ValueSpec:
+			for i, id := range n.Names {
+				d := get(id.Name)
+				d.n++
+				d.pos = n.End()
+				if i < len(n.Values) {
+					d.expr = n.Values[i]
+					if !pureExpr(n.Values[i]) {
+						effects = append(effects, n.Pos())
+					}
+				} else {
+					d.expr = nil
+				}
+			}
+		case *ast.IncDecStmt:
+			if id, ok := n.X.(*ast.Ident); ok {
+				get(id.Name).n++
+			}
+			effects = append(effects, n.Pos())
+		case *ast.RangeStmt:
+			for _, e := range []ast.Expr{n.Key, n.Value} {
+				if id, ok := e.(*ast.Ident); ok {
+					get(id.Name).n += 2
+				}
+			}
+		case *ast.ExprStmt:
+			if !pureExpr(n.X) {
+				effects = append(effects, n.Pos())
+			}
+		case *ast.GoStmt:
+			effects = append(effects, n.Pos())
+		case *ast.DeferStmt:
+			effects = append(effects, n.Pos())
+		case *ast.SendStmt:
+			effects = append(effects, n.Pos())
+		}
+		return true
+	})
+	return defs, effects
+}
+
+func (w *gateWalker) substitutable(id *ast.Ident) ast.Expr {
+	if w.defs == nil {
+		return nil
+	}
+	d := w.defs[id.Name]
+	if d == nil || d.n != 1 || d.expr == nil || !pureExpr(d.expr) {
+		return nil
+	}
+	if id.Pos() < d.pos {
+		return nil // the definition itself, or a use before it
+	}
+	for _, p := range w.effects {
+		if p >= d.pos && p < id.Pos() {
+			return nil // something may have changed what the expression reads
+		}
+	}
+	return d.expr
+}
+
+func (w *gateWalker) subst(e ast.Expr, depth int, top bool) ast.Expr {
+	if depth > 4 {
+		return e
+	}
+	switch x := e.(type) {
+	case *ast.Ident:
+		if d := w.substitutable(x); d != nil {
+			r := w.subst(d, depth+1, false)
+			if _, isBin := r.(*ast.BinaryExpr); isBin && !top {
+				return &ast.ParenExpr{X: r}
+			}
+			return r
+		}
+	case *ast.ParenExpr:
+		return &ast.ParenExpr{X: w.subst(x.X, depth, true)}
+	case *ast.UnaryExpr:
+		return &ast.UnaryExpr{Op: x.Op, X: w.subst(x.X, depth, false)}
+	case *ast.BinaryExpr:
+		return &ast.BinaryExpr{X: w.subst(x.X, depth, false), Op: x.Op, Y: w.subst(x.Y, depth, false)}
+	case *ast.CallExpr:
+		args := make([]ast.Expr, len(x.Args))
+		for i, a := range x.Args {
+			args[i] = w.subst(a, depth, true)
+		}
+		return &ast.CallExpr{Fun: x.Fun, Args: args, Ellipsis: x.Ellipsis}
+	}
+	return e
+}
+
+func (w *gateWalker) ctext(e ast.Expr) string {
+	return oneLine(src(w.subst(e, 0, true)))
+}
+
+// neg: the text of the negation of a condition; the negation of `!x` is `x`
+func (w *gateWalker) neg(e ast.Expr) string {
+	if u, ok := e.(*ast.UnaryExpr); ok && u.Op == token.NOT {
+		inner := u.X
+		if p, ok := inner.(*ast.ParenExpr); ok {
+			inner = p.X
+		}
+		return w.ctext(inner)
+	}
+	return "!(" + w.ctext(e) + ")"
 }
 
 func (w *gateWalker) wanted(name string) bool {
@@ -91,7 +273,7 @@ func (w *gateWalker) exprs(n ast.Node, conds []string) {
 					if _, ok := a.(*ast.FuncLit); ok {
 						args = append(args, "func")
 					} else {
-						args = append(args, oneLine(src(a)))
+						args = append(args, w.ctext(a))
 					}
 				}
 				w.rows = append(w.rows, gateRow{w.fn, name, strings.Join(args, ", "), append([]string(nil), conds...)})
@@ -127,7 +309,7 @@ func (w *gateWalker) block(b *ast.BlockStmt, conds []string) {
 		w.stmt(st, cur)
 		// `if c { …; return }` without else: the rest of the block runs under !c
 		if ifs, ok := st.(*ast.IfStmt); ok && ifs.Else == nil && endsInReturn(ifs.Body) {
-			cur = append(cur, "!("+oneLine(src(ifs.Cond))+")")
+			cur = append(cur, w.neg(ifs.Cond))
 		}
 	}
 }
@@ -141,10 +323,10 @@ func (w *gateWalker) stmt(st ast.Stmt, conds []string) {
 			w.stmt(s.Init, conds)
 		}
 		w.exprs(s.Cond, conds)
-		c := oneLine(src(s.Cond))
+		c := w.ctext(s.Cond)
 		w.block(s.Body, append(append([]string(nil), conds...), c))
 		if s.Else != nil {
-			w.stmt(s.Else, append(append([]string(nil), conds...), "!("+c+")"))
+			w.stmt(s.Else, append(append([]string(nil), conds...), w.neg(s.Cond)))
 		}
 	case *ast.ForStmt:
 		if s.Init != nil {
@@ -247,6 +429,7 @@ func genPrivacy() {
 				}
 			}
 			w := &gateWalker{fn: name}
+			w.defs, w.effects = collectDefs(fd.Body)
 			w.block(fd.Body, nil)
 			rows = append(rows, w.rows...)
 		}
@@ -328,6 +511,7 @@ func proxyRouteRows() []gateRow {
 			continue
 		}
 		w := &gateWalker{fn: rf.pkg + rf.name, callees: routeCallees}
+		w.defs, w.effects = collectDefs(fd.Body)
 		w.block(fd.Body, nil)
 		// tracker.url.Parse: in announceUDP `url` is the tracker's URL value, not the package
 		rows = append(rows, w.rows...)
